@@ -159,10 +159,26 @@ class Hist:
             self.emit([3, p, fk, 4, []])
         elif m == "update":
             lists = [some(rng.choice([0, 1, 2, 3])) for _ in range(rng.choice([0, 1, 1, 2, 3]))]
+            whole = self.whole_collection_elsewhere(p, okind, fkinds)
+            if whole and rng.random() < 0.3:
+                lists = [whole]                      # everything another owner holds (world.W hands over its live collection)
             self.emit([3, p, fk, 5, lists])
         else:
             arg = list(dict.fromkeys(some(rng.choice([0, 1, 2, 4])) + (rng.sample(mem, min(len(mem), rng.choice([0, 1, 2]))))))
+            whole = self.whole_collection_elsewhere(p, okind, fkinds)
+            if whole and rng.random() < 0.3:
+                arg = whole
             self.emit([3, p, fk, SETM.index(m), [arg]])
+
+    def whole_collection_elsewhere(self, p, okind, fkinds):
+        """all members of the same field of another owner of the same kind (None when there is none with members)"""
+        cands = []
+        for q in self.by_kind[okind]:
+            if q != p:
+                mem = self.members(q, fkinds)
+                if mem:
+                    cands.append(mem)
+        return self.rng.choice(cands) if cands else None
 
     def op_mods(self):
         rng = self.rng
@@ -183,6 +199,11 @@ class Hist:
         elif meth in ("extend", "iadd"):
             # repeats and modules already listed are legal: each mention moves the module to the end
             vs = [rng.choice(cur) if (cur and rng.random() < 0.25) else rng.choice(mods) for _ in range(rng.choice([0, 1, 2, 3, 4]))]
+            if rng.random() < 0.3:
+                # everything another IR lists -- or this IR itself (l.extend(l)) -- in list order: world.W hands over the live list
+                src = rng.choice(self.by_kind["IR"])
+                if self.w.kids(src):
+                    vs = list(self.w.kids(src))
             it = [6, ir, vs]
             rep = self.w.run(it + ["iadd"] if meth == "iadd" else it)
             self.items.append(it)
@@ -206,6 +227,10 @@ class Hist:
         elif meth == "setslice":
             a, b = ob(), ob()
             vs = list(dict.fromkeys(rng.choice(mods) for _ in range(rng.choice([0, 1, 2, 3]))))
+            if rng.random() < 0.3:
+                others = [q for q in self.by_kind["IR"] if q != ir and self.w.kids(q)]
+                if others:
+                    vs = list(self.w.kids(rng.choice(others)))
             lo = _bound(a, 0, n)
             hi = max(lo, _bound(b, n, n))
             stay = cur[:lo] + cur[hi:]
